@@ -134,8 +134,9 @@ def rules(ctx):
         o.id = o.id.replace("C01/R3.", "C01/R7.")
     flow_arcs(ctx)
     # the insertion / removal decisions rest on the position walks and the gap test (shared with C12)
-    from .C12 import scans_are_loops, gap_guard, gap_operands
+    from .C12 import scans_are_loops, gap_guard, gap_operands, bisection_rules
     before = len(ctx.obligations)
+    bisection_rules(ctx)
     scans_are_loops(ctx)
     gap_operands(ctx)
     gap_guard(ctx)
